@@ -1021,7 +1021,7 @@ func init() {
 			"change-class to two other classes, typep/class-of/subtypep against every class, one- and two-argument dispatch, every applicable reader/writer/accessor, non-applicable accessors, and instances made before a redefinition. " +
 			"The first 22 cases are a fixed seed-independent list of shapes (chains, diamond, redefinition of root/middle/apex, every construct with a listed finding). " +
 			"distinct = distinct case JSON; every case is non-trivial (>= 2 classes, >= 2 orders, >= 100 evaluations). " +
-			"Kept to a minority of cases (dirty stream): initarg shared by two slots, a slot with two initargs, condition classes with accessors, inherited default initargs, class-allocated slots.",
+			"Kept to a minority of cases (10%): a slot with two initargs, because supplying both has the one open finding (Duplicate initarg error instead of leftmost wins).",
 		N:        nCases,
 		Gen:      gen,
 		Exec:     exec,
